@@ -1183,6 +1183,18 @@ fn roughly_array(a: Option<&ArrayValidation>, b: Option<&ArrayValidation>) -> bo
         (None, None) => true,
         (None, Some(_)) => false,
         (Some(_), None) => false,
+        (Some(aa), Some(bb))
+            if aa.min_items != bb.min_items
+                || aa.max_items != bb.max_items
+                || aa.unique_items != bb.unique_items
+                || !roughly_schema_option(
+                    aa.additional_items.as_deref(),
+                    bb.additional_items.as_deref(),
+                )
+                || !roughly_schema_option(aa.contains.as_deref(), bb.contains.as_deref()) =>
+        {
+            false
+        }
         (Some(aa), Some(bb)) => match (&aa.items, &bb.items) {
             (None, None) => true,
             (None, Some(_)) => false,
